@@ -436,6 +436,7 @@ func Main(c Check) {
 	var reports []ScenarioReport
 	var allFound []found
 	var samples []interface{}
+	var anySample interface{} // fallback when a run is cut short before the target bound
 	total := rt.Stats{}
 	outcomesTotal := 0
 	exhaustive := true
@@ -478,6 +479,9 @@ func Main(c Check) {
 			allFound = append(allFound, fnd...)
 			if smp != nil && len(samples) < 6 && bound == target {
 				samples = append(samples, smp)
+			}
+			if smp != nil {
+				anySample = smp
 			}
 			last = st
 			for k, v := range o {
@@ -547,7 +551,7 @@ func Main(c Check) {
 			"pruned_executions":             total.Pruned,
 			"distinct_outcomes":             outcomesTotal,
 			"exhaustive":                    exhaustive,
-			"samples":                       samples,
+			"samples":                       samplesOrAny(samples, anySample),
 			"scenarios":                     reports,
 			"rule":                          c.Rule,
 			"evaluations":                   total.Executions,
@@ -780,4 +784,14 @@ func doReplay(c Check, path string) int {
 
 func indent(s string) string {
 	return "      " + strings.ReplaceAll(strings.TrimSpace(s), "\n", "\n      ")
+}
+
+func samplesOrAny(samples []interface{}, any interface{}) []interface{} {
+	if len(samples) > 0 {
+		return samples
+	}
+	if any != nil {
+		return []interface{}{any}
+	}
+	return []interface{}{}
 }
